@@ -16,6 +16,10 @@
    zero-weight element for 0 < r < 1" are checked exactly, the cumulative interval with the
    rigorous rounding slack the recorder logs.  The spec reports findings per contract clause
    (stable keys nonrep:<clause>).  Set VERIF_C12_NONREP=0 to skip this phase.
+5. Design-level rounding model (PDFTree with Drift = TRUE, informational): for the repaired
+   algorithm (ExactSums = TRUE, /repo e0af2370e) TLC shows that the in-storage and zero-weight
+   clauses survive any +-1 unit rounding of the recomputed sums and of the descent; for the
+   algorithm before the repair it reproduces the counterexamples behind the nonrep:* findings.
 
 Independent TLC runs / harness shards are run side by side in worker processes (each TLC run
 in its own process: vlib's metadir name is per pid).
@@ -34,13 +38,14 @@ TRACE_SPEC = "ds/PDFContractTrace"
 APPROX_SPEC = "ds/PDFApproxTrace"
 
 
-def _cfg(name, weights, maxsize, dump, drift=None):
+def _cfg(name, weights, maxsize, dump, drift=None, exact_sums=True):
     d = vlib.ensure_dir(os.path.join(WORK, "cfg-c12"))
     p = os.path.join(d, name + ".cfg")
     body = ["SPECIFICATION Spec", "CONSTANTS", "  Weights = {%s}" % ", ".join(map(str, weights)),
-            "  MaxSize = %d" % maxsize, "  Drift = %s" % ("TRUE" if drift else "FALSE"), "VIEW View"]
+            "  MaxSize = %d" % maxsize, "  ExactSums = %s" % ("TRUE" if exact_sums else "FALSE"),
+            "  Drift = %s" % ("TRUE" if drift else "FALSE"), "VIEW View"]
     if drift:
-        body.append("INVARIANT " + drift)
+        body.append("INVARIANTS " + " ".join(drift))
     elif dump:
         body.append("ACTION_CONSTRAINT Dump")
     else:
@@ -57,15 +62,21 @@ def _parse_all(out, tag):
 # ------------------------------------------------------------------ jobs (run in worker processes)
 
 def _job_build(san):
-    return build_harness("pdf", needs_lib=False, san=san)
+    # the sanitizer-free binary only records short histories: -O0 halves its compile time
+    return build_harness("pdf", needs_lib=False, san=san, opt="-O1" if san else "-O0")
 
 
-def _job_drift(invariant):
-    """Design-level model of rounded weight changes (PDFTree with Drift = TRUE): TLC is expected to
-    find a behaviour breaking the invariant.  Informational: explains the nonrep:* findings at the
-    level of the algorithm, never a verdict on the code."""
-    res = run_tlc(SPEC, cfg=_cfg("drift-" + invariant, (0, 4, 8), 3, False, drift=invariant), workers=1,
-                  timeout=600)
+DRIFT_INVS = ("RowLengths", "IndexConsistent", "RowsAreRoundedSums", "SampleInStorageDrift",
+              "NoZeroWeightDrawnDrift")
+
+
+def _job_drift(name, weights, n, exact_sums, invariants, workers):
+    """Design-level model of floating-point rounding (PDFTree with Drift = TRUE).
+    exact_sums=True: the repaired algorithm (recompute from children, guarded descent) - the
+    rounding-proof clauses are expected to HOLD.  exact_sums=False: the algorithm before repair
+    e0af2370e - TLC is expected to produce the counterexample.  Never a verdict on the code."""
+    res = run_tlc(SPEC, cfg=_cfg(name, weights, n, False, drift=invariants, exact_sums=exact_sums),
+                  workers=workers, timeout=3000)
     res.out = res.out[-6000:]
     return res
 
@@ -405,26 +416,33 @@ def run(tier):
     W4, W3, W2 = (0, 1, 2, 3), (0, 1, 2), (0, 1)
     if tier == "quick":
         mcs = [("mc-6x4", W4, 6), ("mc-9x2", W2, 9)]
-        dumps = [("dump-5x4", W4, 5, "pairs", 2000, 6), ("dump-9x2", W2, 9, "edges", 1000, 1)]
-        rec = [("small", 5000), ("mixed", 5000), ("ctor", 5000)]
-        nonrep = [3000]
+        # replayed graphs: all shapes up to 4 rows with three weight values and the full pair walk,
+        # 5-row trees (9 elements) with two weight values, edges + random walks
+        dumps = [("dump-5x3", (0, 1, 3), 5, "pairs", 2000, 4), ("dump-9x2", W2, 9, "edges", 1000, 1)]
+        rec = [("small", 3000), ("mixed", 3000), ("ctor", 3000)]
+        nonrep = [2500]
+        drifts = [("drift-new-5x2", (0, 4), 5)]
     else:
         mcs = [("mc-7x4", W4, 7), ("mc-10x3", W3, 10), ("mc-13x2", W2, 13)]
         dumps = [("dump-6x4", W4, 6, "pairs", 20000, 12), ("dump-7x3", W3, 7, "pairs", 10000, 8),
                  ("dump-9x2", W2, 9, "pairs", 10000, 4), ("dump-12x2", W2, 12, "edges", 10000, 1)]
         rec = [("small", 40000), ("mixed", 40000), ("ctor", 40000)] * 3
         nonrep = [20000] * 3
+        drifts = [("drift-new-5x2", (0, 4), 5), ("drift-new-4x3", (0, 4, 8), 4), ("drift-new-6x2", (0, 4), 6)]
     with ProcessPoolExecutor(max_workers=vlib.NCPU) as ex:
         # everything that does not depend on anything else starts now (the harness is compiled
         # while TLC explores)
         buildf = ex.submit(_job_build, "asan")
-        mcf = [(name, ex.submit(_job_mc, name, w, n, max(2, vlib.NCPU // 2))) for name, w, n in mcs]
         dumpf = [(d, ex.submit(_job_dump, d[0], d[1], d[2])) for d in dumps]
         if os.environ.get("VERIF_C12_NONREP", "1") == "0":
             nonrep = []
             ck.assumptions.append("VERIF_C12_NONREP=0: histories with non-representable weights were skipped")
         plainf = ex.submit(_job_build, None) if nonrep else None
-        driftf = [(inv, ex.submit(_job_drift, inv)) for inv in ("SampleInStorageDrift", "NoZeroWeightDrawnDrift")]
+        tlcw = max(2, min(4, vlib.NCPU // 2))
+        mcf = [(name, ex.submit(_job_mc, name, w, n, tlcw)) for name, w, n in mcs]
+        driftf = [(name, True, ex.submit(_job_drift, name, w, n, True, DRIFT_INVS, tlcw)) for name, w, n in drifts]
+        driftf += [("drift-old-" + inv, False, ex.submit(_job_drift, "drift-old-" + inv, (0, 4, 8), 3, False, (inv,), 1))
+                   for inv in ("SampleInStorageDrift", "NoZeroWeightDrawnDrift")]
         binary = buildf.result()
         tracef = [ex.submit(_job_trace, binary, i, variant, nops, vlib.seed() * 131 + i)
                   for i, (variant, nops) in enumerate(rec)]
@@ -439,16 +457,21 @@ def run(tier):
                 # verdict on the code comes from the replay below, which covers the same shapes
                 log("[C12] note: TLC reports %s violated in the algorithm model (%s)" % (res.violated, name))
                 ck.set("model_violation", res.violated)
-        # 1b. design-level model of rounding in update(): which contract clauses can it break?
-        for inv, f in driftf:
+        # 1b. design-level model of floating-point rounding: the repaired algorithm keeps the
+        # rounding-proof clauses, the algorithm before the repair yields the counterexamples
+        for name, repaired, f in driftf:
             res = f.result()
-            if res.error:
-                raise FrameworkError(res.error)
-            ck.set("rounding_model_" + inv, {"violated_by_the_algorithm": res.violated == inv,
-                                             "counterexample_depth": res.depth, "states": res.distinct})
-            if res.violated == inv:
-                log("[C12] note: with a weight change rounded by one unit the algorithm model breaks %s "
-                    "(counterexample of %d steps) - design-level explanation of nonrep:* findings" % (inv, res.depth))
+            ck.tlc(res, name)
+            ck.set("rounding_model_" + name, {"algorithm": "repaired (ExactSums)" if repaired else "before e0af2370e",
+                                              "violated": res.violated, "depth": res.depth,
+                                              "states": res.distinct, "transitions": res.generated})
+            if repaired and res.violated:
+                log("[C12] note: TLC reports %s violated in the rounding model of the repaired algorithm (%s)"
+                    % (res.violated, name))
+                ck.set("model_violation", res.violated)
+            if not repaired and not res.violated:
+                raise FrameworkError("the rounding model of the algorithm before the repair no longer yields its "
+                                     "counterexample (%s): the Drift model has become vacuous" % name)
         # 2. every transition of the state graph replayed on the real PDF
         replayf = []
         for (name, w, n, mode, walks, shards), f in dumpf:
